@@ -19,7 +19,25 @@ ENGINES = [
 
 NOT_BUILT_REASON = {}
 
+SIM_NOTE = ("Trusts the fakes (HMAC key registry: a signature verifies only if made with the claimed sender's key; the adversary code path can sign only with Byzantine/outsider keys and copy observed bytes), "
+            "the verif-tagged VerifNode step functions (one legal interleaving of the two loops per event), the reference model in /verif/ref and rapid. Bounds: n<=7, heights<=3, traces<=~200 actions.")
+
 CHECKS = {
+    "C01": dict(engine="S", technique="stateful property-based testing (rapid): generated schedules + Byzantine strategies on a deterministic simulator of real nodes; invariant over commit history",
+        level="Generated-input search over committees, weights, Byzantine sets, schedules and adversarial message constructions; agreement is checked at every commit callback. A scripted+generated regression set (replays/) pins the defects found. One open known finding (stand-alone PREPREPARE in view>0) is excluded by construction and reported as KNOWN-FINDING.",
+        note=SIM_NOTE),
+    "C03": dict(engine="S", technique="stateful property-based testing (rapid) with a differential oracle: implementation validator on a peer + independent reference validator at every commit",
+        level="Every (block, proof) handed to a correct commit callback in generated adversarial executions is re-validated strictly on a different correct node and by the reference validator.",
+        note=SIM_NOTE),
+    "C04": dict(engine="S", technique="stateful property-based testing (rapid): consumer-invalid proposals injected in view 0 and inside NEW_VIEWs; invariant over commit history and validator call log",
+        level="Generated executions with Byzantine leaders proposing blocks the consumer rejects (stand-alone, as fresh NEW_VIEW proposals, under cover of genuine/forged locks); every committed block is checked for height, certified hash, legitimate proposer and consumer approval at a correct member.",
+        note=SIM_NOTE),
+    "C10": dict(engine="S", technique="stateful property-based testing (rapid): invariant over each correct node's send log joined with its reference-validated inbox",
+        level="Single-valued signatures and phase-order rules are checked on every message a correct node sends in generated adversarial executions (equivocating leaders, duplicates, replays, late commits).",
+        note=SIM_NOTE),
+    "C18": dict(engine="P", technique="property-based testing (rapid) + dense enumeration of the leader function against view mod n in uint64",
+        level="Leader function tabulated through a verif-tagged accessor over dense small views, all power-of-two neighbourhoods, 2^63 and 2^64-1 neighbourhoods and random 64-bit views for n=4..64, including round-robin windows.",
+        note="Trusts the accessor VerifLeaderOf (one-line wrapper around the package-private function). Behavioural cross-check (leader acceptance on a real node at views >= 2^63) is part of C12/C08 engine N."),
     "C06": dict(
         engine="P",
         technique="property-based testing (rapid) + bounded exhaustive enumeration against a math/big reference",
